@@ -413,3 +413,54 @@ pub fn vars_within_textual_scope(p: &Program, pr: &Printed, real: &RealTrace, ac
     }
     None
 }
+
+/// The trait's own default `write_input`: with a driver that implements only the required method
+/// every row still reaches the device exactly once, with the same inputs, and the items are those
+/// of the run against the recording driver. Applied to error-free runs.
+pub fn plain_driver_check(case: &Case, pr: &Printed, base: &RealTrace, acc: &mut Acc) -> Option<Finding> {
+    if !matches!(base.construct, Construct::Ok) {
+        return None;
+    }
+    let rows: Vec<&RealItem> = base.steps.iter().map(|s| &s.item).take_while(|i| matches!(i, RealItem::Row(_))).collect();
+    let clean = base.steps.len() > rows.len() && base.steps[rows.len()..].iter().all(|s| s.item == RealItem::End) && !rows.is_empty();
+    if !clean {
+        return None;
+    }
+    let (_, parsed) = parse(&pr.text);
+    let (_, tc) = bind(parsed?, &case.signals);
+    let tc = tc?;
+    let (items, calls, panic) = run_bound_plain_driver(&tc, &case.signals, &case.script, Some(case.rng_seed), rows.len() + 4)?;
+    acc.evaluations += 1;
+    acc.event("runs_through_the_trait_default_write_input", 1);
+    if let Some(p) = panic {
+        return Some(Finding::new(p.signature(), format!("driver without write_input: {p:?}")));
+    }
+    for (k, item) in items.iter().enumerate() {
+        let want = rows.get(k).copied().unwrap_or(&RealItem::End);
+        if item != want {
+            return Some(Finding::new(
+                "default-write-input-item-differs",
+                format!("driver that does not override write_input: item {k} is {item:?}, with the recording driver {want:?}"),
+            ));
+        }
+    }
+    if items.len() != rows.len() + 1 {
+        return Some(Finding::new("default-write-input-item-differs", format!("{} items instead of {} rows + end", items.len(), rows.len())));
+    }
+    if calls.len() != base.calls.len() {
+        return Some(Finding::new(
+            "default-write-input-calls-differ",
+            format!("driver that does not override write_input received {} calls, the recording driver {}", calls.len(), base.calls.len()),
+        ));
+    }
+    for (k, (a, b)) in calls.iter().zip(&base.calls).enumerate() {
+        if !a.reads || a.inputs != b.inputs {
+            return Some(Finding::new(
+                "default-write-input-calls-differ",
+                format!("call #{k}: through the trait default the device received {:?} (output-reading: {}), the recording driver {:?}", a.inputs, a.reads, b.inputs),
+            ));
+        }
+    }
+    acc.event("midclock_rows_through_trait_default", base.calls.iter().filter(|c| !c.reads).count() as u64);
+    None
+}
